@@ -59,7 +59,9 @@ def harness(cfg, B):
             model = fd.euler.euler2d(gamma=g)
             mesh = fd.mesh2d.mesh2d(n, 1, B.pos('lx'), B.pos('ly'))
         P_ = [rho, u, p]
+        P0 = [x.copy() for x in P_]          # pristine copies: the conversions must not modify the arrays they are given
         Q = model.prim2cons(P_)
+        Q0 = [x.copy() for x in Q]
         P2 = model.cons2prim(Q)
         for k, nm in enumerate(['rho', 'vel', 'p']):
             B.eq_arrays('c2p(p2c(P)).' + nm, P2[k], P_[k])
@@ -114,6 +116,17 @@ def harness(cfg, B):
                 B.eq_arrays('var:entropy', val, ref, method='sweep')
             else:
                 B.ob('var:%s has an oracle' % name, 'true', B.boolean(False), meta={'note': 'variable without definition in the harness'})
+        # the same field object after its data changed (doubled conservative state: density, momentum and energy x2, so pressure x2
+        # and velocity unchanged): a named variable must follow the data it is asked about, and the conversions must not have
+        # modified the arrays they were given
+        for k, nm in enumerate(['rho', 'vel', 'p']):
+            B.eq_arrays('prim2cons-leaves-its-input-untouched:' + nm, P_[k], P0[k])
+        for k, nm in enumerate(['rho', 'mom', 'E']):
+            B.eq_arrays('cons2prim-leaves-its-input-untouched:' + nm, Q[k], Q0[k])
+        field.data = [2 * q for q in Q]
+        B.eq_arrays('after-data-change:density', field.phydata('density'), 2 * rho)
+        B.eq_arrays('after-data-change:pressure', field.phydata('pressure'), 2 * p)
+        B.eq_arrays('after-data-change:velocity', field.phydata('velocity'), u)
     elif m == 'shallowwater':
         g = B.const(cfg['g'])
         model = fd.shallowwater.shallowwater1d(g=g)
